@@ -11,6 +11,7 @@
                             `⌈cᵢ·N⌉ − ⌈cᵢ₋₁·N⌉`; `C06_count_none`: `N − ⌈c_n·N⌉` outcomes select
                             nothing.  All `2^23` outcomes are covered by the counting lemma
                             `count_band`, not by enumeration;
+  * `C06_share_close`     : that share is within `2^-23 + 2^-24` of the declared `pᵢ`;
   * `C06_prob_one`        : a first transition with probability 1.0 is taken on every outcome;
   * `C06_no_vector`       : an event without a vector leaves the machine where it is and draws
                             nothing.
@@ -110,6 +111,27 @@ theorem C06_total_real {n : Nat} {ts : List Trans} (hv : C12.VecWF n ts) :
   · exact hs.elim
   · exact hs.elim
   · exact ⟨q, rfl, hg.1, hs⟩
+
+/-- **up to the resolution of the draw**: the share of outcomes taking transition `i` differs from
+    the declared `pᵢ` by less than `2^-23` (one outcome) plus `2^-24` (one f32 rounding of the
+    running sum) -/
+theorem C06_share_close {n : Nat} {ts : List Trans} (hv : C12.VecWF n ts) (b : Band)
+    (hb : b ∈ bands (.fin 0) ts) :
+    ∃ pq : ℚ, b.p = .fin pq ∧ |(b.size : ℚ) / (N : ℚ) - pq| < 1 / 2 ^ 23 + 1 / 2 ^ 24 := by
+  have hg := good_bands good_zero hv.probs b hb
+  obtain ⟨t, ht, hpt, _⟩ := bands_p_mem _ _ b hb
+  have hp : C12.Prob b.p := by rw [hpt]; exact hv.probs t ht
+  obtain ⟨q, hq, _, hq1⟩ := C06_total_real hv
+  have hle := mono_band_le_total (C06_mono hv) b hb
+  rw [hq] at hle
+  have hhi := hg.2
+  generalize hbh : b.hi = h at hle hhi
+  rcases h with _ | s | c
+  · exact hhi.elim
+  · simp only [Good] at hhi; subst hhi; simp [le] at hle
+  · have hc1 : c ≤ 1 := le_trans (by simpa using hle) hq1
+    unfold Band.size
+    exact band_share_close hg.1 hp (bands_hi_eq _ _ b hb) hbh hc1
 
 theorem rep_one : Rep 24 (-149) 1 := ⟨1, 0, by decide, by decide, by simp [pow2_zero]⟩
 
